@@ -98,6 +98,7 @@ Proof.
   - split; auto.
   - split; auto.
   - split; auto.
+  - split; auto.
 Qed.
 
 Lemma size_inv_lemma : forall ops s, size_ok s -> ops_ok s ops -> size_ok (run s ops).
@@ -151,6 +152,14 @@ Definition segment {T} (ly : layer) (ops : list (@op T)) : nat * list (list T) :
   fold_left seg_step ops (layer_numel ly, []).
 Definition no_resize {T} (o : @op T) : bool := match o with Resize _ => false | _ => true end.
 
+(* the agent's current lambda: the last value an RL-hyperparameter mutation gave it *)
+Definition lam_step {T} (l : T) (o : @op T) : T := match o with SetLam l' => l' | _ => l end.
+Definition cur_lam {T} (l : T) (ops : list (@op T)) : T := fold_left lam_step ops l.
+(* was the matrix re-initialised after the last change of lambda? (Mutations.mutation runs the hook after the change) *)
+Definition clean_step {T} (c : bool) (o : @op T) : bool :=
+  match o with SetLam _ => false | MutHook _ => true | _ => c end.
+Definition lam_clean {T} (ops : list (@op T)) : bool := fold_left clean_step ops true.
+
 Section Segment.
 Context {T : Type}.
 Variables (zero one : T) (add sub mul div : T -> T -> T) (rr : bool).
@@ -158,31 +167,46 @@ Notation run := (@run T zero one add sub mul div rr).
 Notation step := (@step T zero one add sub mul div rr).
 Notation sigma_run := (@sigma_run T zero one add sub mul div).
 
-Lemma run_segment_gen : forall (ops : list (@op T)) (s : @bstate T) (g : nat * list (list T)),
-  forallb no_resize ops = true ->
-  sig s = sigma_run (lam s) (fst g) (snd g) ->
-  lam (run s ops) = lam s /\
-  sig (run s ops) = sigma_run (lam s) (fst (fold_left seg_step ops g)) (snd (fold_left seg_step ops g)).
+Lemma run_cur_lam : forall (ops : list (@op T)) (s : @bstate T), lam (run s ops) = cur_lam (lam s) ops.
 Proof.
-  induction ops as [|o ops IH]; intros s g Hnr Hs; cbn [Model.run fold_left] in *; [now split|].
-  apply andb_prop in Hnr. destruct Hnr as [Ho Hnr].
-  assert (lam (step s o) = lam s /\
-          sig (step s o) = sigma_run (lam s) (fst (seg_step g o)) (snd (seg_step g o))) as [Hl Hsig].
-  { destruct o; cbn [Model.step seg_step lam sig fst snd init_params] in *; try (now split); try discriminate.
-    - split; auto. unfold Model.sigma_run in *. rewrite fold_left_app. cbn [fold_left]. now rewrite Hs.
-  }
-  specialize (IH (step s o) (seg_step g o) Hnr). rewrite Hl in IH.
-  destruct (IH Hsig) as [H1 H2]. split; auto.
+  induction ops as [|o ops IH]; intros s; [reflexivity|].
+  specialize (IH (step s o)). unfold Model.run, cur_lam in *. cbn [fold_left]. rewrite IH.
+  f_equal. destruct o; reflexivity.
 Qed.
 
-(* after construction and any history without the private resize helper, sigma_inv is exactly the
-   Sherman–Morrison run over the features chosen since the last initialisation, in the current dimension *)
-Lemma agent_sigma_is_run l ly (ops : list (@op T)) :
+Lemma run_segment_gen : forall (ops : list (@op T)) (s : @bstate T) (g : nat * list (list T)) (c : bool),
   forallb no_resize ops = true ->
-  sig (run (init_params zero one div l ly) ops) =
-  sigma_run l (fst (segment ly ops)) (snd (segment ly ops)).
+  (c = true -> sig s = sigma_run (lam s) (fst g) (snd g)) ->
+  fold_left clean_step ops c = true ->
+  sig (run s ops) = sigma_run (lam (run s ops)) (fst (fold_left seg_step ops g)) (snd (fold_left seg_step ops g)).
 Proof.
-  intros H. destruct (run_segment_gen ops (init_params zero one div l ly) (layer_numel ly, []) H) as [_ E];
-    [reflexivity|]. exact E.
+  induction ops as [|o ops IH]; intros s g c Hnr Hs Hc; cbn [Model.run fold_left] in *; [now apply Hs|].
+  apply andb_prop in Hnr. destruct Hnr as [Ho Hnr].
+  apply (IH (step s o) (seg_step g o) (clean_step c o) Hnr); auto.
+  intros Hc'. destruct o; cbn [Model.step seg_step clean_step lam sig fst snd init_params] in *;
+    try discriminate; auto.
+  - unfold Model.sigma_run in *. rewrite fold_left_app. cbn [fold_left]. now rewrite (Hs Hc').
+Qed.
+
+(* after construction and any history without the private resize helper in which every change of lambda was followed
+   by a re-initialisation, sigma_inv is exactly the Sherman–Morrison run, for the agent's CURRENT lambda, over the
+   features chosen since the last initialisation, in the current dimension *)
+Lemma agent_sigma_is_run l ly (ops : list (@op T)) :
+  forallb no_resize ops = true -> lam_clean ops = true ->
+  sig (run (init_params zero one div l ly) ops) =
+  sigma_run (cur_lam l ops) (fst (segment ly ops)) (snd (segment ly ops)).
+Proof.
+  intros H Hc.
+  replace (cur_lam l ops) with (lam (run (init_params zero one div l ly) ops)) by (apply run_cur_lam).
+  apply (run_segment_gen ops (init_params zero one div l ly) (layer_numel ly, []) true H); auto.
 Qed.
 End Segment.
+
+(* an RL-hyperparameter mutation of lambda NOT followed by a re-initialisation (Mutations.mutation skipping the hook for
+   hyperparameter mutations): the agent holds lambda = 2 with the matrix of lambda = 1 — lambda*I*sigma_inv is 2, not 1 *)
+Lemma setlam_without_init_witness :
+  let q := fun z => QArith_base.Qmake z BinNums.xH in
+  let s := fold_left Qstep [SetLam (q (BinNums.Zpos (BinNums.xO BinNums.xH)))] (Qinit (q (BinNums.Zpos BinNums.xH)) [(0, 1)]) in
+  lam s = q (BinNums.Zpos (BinNums.xO BinNums.xH)) /\ Qmatmul (@scal_id QArith_base.Q (q BinNums.Z0) 1 (lam s)) (sig s) = [[q (BinNums.Zpos (BinNums.xO BinNums.xH))]] /\
+  sig (fold_left Qstep [SetLam (q (BinNums.Zpos (BinNums.xO BinNums.xH))); MutHook [(0, 1)]] (Qinit (q (BinNums.Zpos BinNums.xH)) [(0, 1)])) = [[QArith_base.Qmake (BinNums.Zpos BinNums.xH) (BinNums.xO BinNums.xH)]].
+Proof. vm_compute. auto. Qed.
